@@ -92,16 +92,20 @@ pub mod proofs {
         p
     }
 
-    fn check_after_ok(stack: &Stack, d: &Recorder, rel: &Path) {
-        assert!(*stack.current_relative() == *rel, "current_relative() is the last path");
-        assert!(*stack.current() == *rel, "current() is root joined with the last path (empty root)");
-        // the root plus every directory component of the current path (its last component is a file) is open
-        assert!(d.open() == rel.len as u32, "push_directory/pop_directory balanced: one open directory per directory of the current path");
+    fn check_after_ok(stack: &Stack, d: &Recorder, rel: &Path, check_paths: bool, check_balance: bool) {
+        if check_paths {
+            assert!(*stack.current_relative() == *rel, "current_relative() is the last path");
+            assert!(*stack.current() == *rel, "current() is root joined with the last path (empty root)");
+        }
+        if check_balance {
+            // the root plus every directory component of the current path (its last component is a file) is open
+            assert!(d.open() == rel.len as u32, "push_directory/pop_directory balanced: one open directory per directory of the current path");
+        }
     }
 
     /// Histories of CALLS calls with arbitrary paths; the delegate rejects at most one `push` and at most one
     /// `push_directory` at symbolic call numbers. After every successful call the stack and the notifications are consistent.
-    pub fn history<const CALLS: usize>(allow_push_failure: bool, allow_dir_failure: bool) {
+    pub fn history<const CALLS: usize>(allow_push_failure: bool, allow_dir_failure: bool, check_paths: bool, check_balance: bool) {
         let fp: u32 = kani::any();
         let fd: u32 = kani::any();
         kani::assume(fp <= 7 && fd <= 7);
@@ -136,11 +140,15 @@ pub mod proofs {
             let rel = rels[n];
             match stack.make_relative_path_current(&rel, &mut d) {
                 Ok(()) => {
-                    check_after_ok(&stack, &d, &rel);
+                    check_after_ok(&stack, &d, &rel, check_paths, check_balance);
+                    assert!(*stack.current() == *stack.current_relative(), "current() is always root joined with current_relative()");
                     kani::cover!(!(allow_push_failure || allow_dir_failure) || (any_failed && n + 1 == CALLS), "a successful call after a rejected one");
                 }
                 Err(_) => {
                     any_failed = true;
+                    if check_paths {
+                        assert!(*stack.current() == *stack.current_relative(), "also after a rejected push current() is root joined with current_relative()");
+                    }
                 }
             }
             n += 1;
@@ -166,22 +174,29 @@ pub mod proofs {
     #[kani::proof]
     #[kani::unwind(6)]
     pub fn c42_history_1_nofail() {
-        history::<1>(false, false)
+        history::<1>(false, false, true, true)
     }
     #[kani::proof]
     #[kani::unwind(6)]
     pub fn c42_history_2_nofail() {
-        history::<2>(false, false)
+        history::<2>(false, false, true, true)
     }
     #[kani::proof]
     #[kani::unwind(6)]
     pub fn c42_history_3_nofail() {
-        history::<3>(false, false)
+        history::<3>(false, false, true, true)
     }
-    /// Known finding C42-F10: histories in which the delegate rejects a `push` or a `push_directory`.
+    /// Histories in which the delegate rejects a `push` and/or a `push_directory`: the *paths* stay consistent
+    /// (the notification balance in this class is known finding C42-F10, checked by the next harness).
+    #[kani::proof]
+    #[kani::unwind(6)]
+    pub fn c42_rejected_2_paths() {
+        history::<2>(true, true, true, false)
+    }
+    /// Known finding C42-F10: the notification balance in histories with a rejected `push` / `push_directory`.
     #[kani::proof]
     #[kani::unwind(6)]
     pub fn c42_known_rejected_2() {
-        history::<2>(true, true)
+        history::<2>(true, true, false, true)
     }
 }
